@@ -3,7 +3,7 @@
 //! Commands (all numbers hex, one result line per command, "-" leaves an optional argument at its default):
 //!   model <ver> <seed> <namelen> <nseq> <nbones> <nverts> <ntex> <nmat> <nlookups> <natt> <nevents> <nlights> <ncams>
 //!         [npart nribbon ntexanim ncoloranim ntransanim nglobalseq nviews nbounding mode flags]
-//!         mode  = max keys per track (low byte, default 2) | 0x100 key-less tracks carry the default track header | 0x800 bone tracks share value arrays
+//!         mode  = max keys per track (low byte, default 2) | 0x100 key-less tracks carry the default track header | 0x800 bone tracks share value arrays | 0x1000 bone tracks share timestamp arrays
 //!                 | 0x200 no texture has a file name | 0x400 every texture has a file name
 //!         flags = header flags (default: random bits without 0x8 / 0x8000000, which add optional header arrays)
 //!     -> W1=<hex | LEN=<n> SHA=<fnv1a64>> EQ=<1|0|PARSE-..> DIFF=<sections|-> SAME=<1|0|WRITE2-..> LISTS=<section:len,..>
@@ -66,7 +66,7 @@ struct G {
     /// 0 = file names on hard-coded textures and some others, 1 = no texture has a file name, 2 = every texture has one
     texnames: u8,
     /// bone tracks with key frames of the same size share one value array (same bytes, same original offset)
-    share: bool,
+    share: bool, share_ts: bool,
 }
 
 impl G {
@@ -75,7 +75,7 @@ impl G {
         if s == 0 {
             s = 0x1234_5678_9ABC_DEF1;
         }
-        let mut g = G { s, off: 0x1000_0000, maxkeys: maxkeys & 0xff, plain: maxkeys & 0x100 != 0, texnames: if maxkeys & 0x200 != 0 { 1 } else if maxkeys & 0x400 != 0 { 2 } else { 0 }, share: maxkeys & 0x800 != 0 };
+        let mut g = G { s, off: 0x1000_0000, maxkeys: maxkeys & 0xff, plain: maxkeys & 0x100 != 0, texnames: if maxkeys & 0x200 != 0 { 1 } else if maxkeys & 0x400 != 0 { 2 } else { 0 }, share: maxkeys & 0x800 != 0, share_ts: maxkeys & 0x1000 != 0 };
         for _ in 0..4 {
             g.next();
         }
@@ -246,7 +246,15 @@ fn btrack<T>(g: &mut G, vn: u32, quat: bool, dst: &mut Vec<BoneAnimationRaw>, bo
     }
     let r = g.words(nr * 2);
     let ro = if nr > 0 { g.off() } else { 0 };
-    let (to, mut vo) = (g.off(), g.off());
+    let (mut to, mut vo) = (g.off(), g.off());
+    let mut t = t;
+    if g.share_ts {
+        // two tracks referencing one timestamps array (the writer stores it once)
+        if let Some(prev) = dst.iter().rev().find(|p| p.timestamps.len() == t.len()) {
+            t = prev.timestamps.clone();
+            to = prev.original_timestamps_offset;
+        }
+    }
     if g.share {
         if let Some(prev) = dst.iter().rev().find(|p| p.values.len() == v.len()) {
             v = prev.values.clone();
